@@ -21,7 +21,7 @@
  *   touch kib                      mmap + touch kib KiB, report own ru_maxrss, exit 0
  *   write volume chunk delay_us    (collector) write volume bytes of a pattern to fd 1, report every outcome
  * child behaviour (environment LIMITS_CHILD, performed before the mode):
- *   none | exitfirst:c | outlive | killed:s
+ *   none | exitfirst:c | outlive | killed:s | orphanexit:c | orphankilled:s (re-parented descendant)
  */
 #define _GNU_SOURCE
 #include <errno.h>
@@ -155,6 +155,47 @@ static void do_child(const char *spec)
 		}
 		close(pp[0]);
 		rep("childalive", 1);
+		return;
+	}
+	if (!strncmp(spec, "orphanexit:", 11) || !strncmp(spec, "orphankilled:", 13)) {
+		/* a re-parented descendant: main -> mid -> orphan; mid exits at once, the orphan stays in
+		 * the program's process group, is adopted by whoever reaps orphans here (container init,
+		 * the program itself when it is pid 1, the host's reaper under ptrace) and ends BEFORE
+		 * the main process, with another exit code or by a signal */
+		int killed = spec[6] == 'k';
+		int v = atoi(strchr(spec, ':') + 1), st = 0, pp[2];
+		char c;
+		if (pipe(pp) < 0)
+			_exit(96);
+		pid_t mid = fork();
+		if (mid < 0) {
+			rep("forkfail", errno);
+			_exit(96);
+		}
+		if (mid == 0) {
+			close(REP);
+			close(0);
+			close(pp[0]);
+			pid_t parent = getpid();
+			pid_t o = fork();
+			if (o != 0)
+				_exit(o < 0 ? 96 : 0);
+			for (int i = 0; i < 2000 && getppid() == parent; i++) /* until re-parented */
+				usleep(1000);
+			if (killed)
+				self_signal(v);
+			else
+				_exit(v);
+			_exit(95); /* not killed */
+		}
+		close(pp[1]);
+		waitpid(mid, &st, 0);
+		rep("midexit", WIFEXITED(st) ? WEXITSTATUS(st) : -1);
+		while (read(pp[0], &c, 1) > 0) { /* EOF: the orphan is gone */
+		}
+		close(pp[0]);
+		usleep(30000); /* let its new parent see it before we end */
+		rep("orphangone", v);
 		return;
 	}
 	rep("badchild", 0);
